@@ -21,7 +21,7 @@ import (
 
 func TestMain(m *testing.M) { drv.Main(m) }
 
-const rule = "a generated chain configuration (taker-fee rate and distribution splits incl. burn, mint/incentive epoch identifiers, denom creation fee, community-pool swap denom, CL uptimes) and a generated history of 4..24 blocks on the real application through ABCI (InitChain on a fixed-key genesis + deterministic bootstrap, FinalizeBlock with signed transactions of 5 accounts and a full commit of the bonded validators, Commit); block intervals of seconds, an hour, a day, a week or up to 25 days so that hour/day/week epochs, unlock/unbonding maturity and gov voting ends occur; 41 message kinds of bank, gamm (balancer, stableswap), poolmanager (multi-hop exact-in/out, split routes), concentrated-liquidity, lockup, incentives, tokenfactory (incl. force transfers touching module accounts), staking, distribution, superfluid, valset-pref and gov, drawn with weights among the kinds feasible in the leader's committed state; fees in the base denom or in a whitelisted fee token. Oracle: every other fresh node fed the same blocks - a plain one, and a noisy one that before every block runs CheckTx and gas simulation of the block's transactions and of up to two generated transactions that are never included, then ProcessProposal, all on discarded state, and that is rebuilt from its database at a generated height (crash after a commit) - must return byte-identical ExecTxResults (code, data, log without panic stack traces, gas wanted/used, events), block events, validator updates and app hash for every block; a node initialised (InitChain, all module invariants asserted) from the state exported at a generated height and fed the remaining blocks must return the same tx results (metered gas excepted), block events and validator updates, and its per-module exported genesis and its answers to a fixed list of state queries must equal the source node's one block after the import and at the end of the history. Non-trivial = >= 3 successful transactions of >= 2 modules and at least one block interval >= 1h; distinct by hash of configuration and transaction kinds"
+const rule = "a generated chain configuration (taker-fee rate and distribution splits incl. burn, mint/incentive epoch identifiers, denom creation fee, community-pool swap denom, CL uptimes) and a generated history of 4..24 blocks on the real application through ABCI (InitChain at height 110 on a fixed-key genesis + deterministic bootstrap - in one configuration of three followed by set-up blocks that leave a full-range CL position created locked and superfluid-delegated whose lock is unbonding, so that histories reach positions linked to matured and swept locks -, FinalizeBlock with signed transactions of 5 accounts and a full commit of the bonded validators, Commit); block intervals of seconds, an hour, a day, a week or up to 25 days so that hour/day/week epochs, unlock/unbonding maturity and gov voting ends occur; 41 message kinds of bank, gamm (balancer, stableswap), poolmanager (multi-hop exact-in/out, split routes), concentrated-liquidity, lockup, incentives, tokenfactory (incl. force transfers touching module accounts), staking, distribution, superfluid, valset-pref and gov, drawn with weights among the kinds feasible in the leader's committed state; fees in the base denom or in a whitelisted fee token. Oracle: every other fresh node fed the same blocks - a plain one, and a noisy one that before every block runs CheckTx and gas simulation of the block's transactions and of up to two generated transactions that are never included, then ProcessProposal, all on discarded state, and that is rebuilt from its database at a generated height (crash after a commit) - must return byte-identical ExecTxResults (code, data, log without panic stack traces, gas wanted/used, events), block events, validator updates and app hash for every block; a node initialised (InitChain, all module invariants asserted) from the state exported at a generated height and fed the remaining blocks must return the same tx results (metered gas excepted), block events and validator updates, and its per-module exported genesis and its answers to a fixed list of state queries must equal the source node's one block after the import and at the end of the history. Non-trivial = >= 3 successful transactions of >= 2 modules and at least one block interval >= 1h; distinct by hash of configuration and transaction kinds"
 
 // Plan is a self-contained replayable history.
 type Plan struct {
@@ -366,7 +366,7 @@ func runCase(rt *rapid.T, c *drv.Case) {
 	okTx, failTx := 0, 0
 	mods := map[string]bool{}
 	long := false
-	reorderedAt := 0
+	reorderedAt, staleLinkAt := 0, 0
 	skimmed := false
 	var kinds []string
 	var okKinds []string
@@ -380,6 +380,20 @@ func runCase(rt *rapid.T, c *drv.Case) {
 		want = append(want, br)
 		if blk.Dt >= time.Hour {
 			long = true
+		}
+		// a position still linked to a lock that has matured and is gone: state the export has to carry as it is
+		if staleLinkAt == 0 {
+			lctx := leader.ReadCtx()
+			for id := uint64(1); id < leader.App.ConcentratedLiquidityKeeper.GetNextPositionId(lctx); id++ {
+				if lk, err := leader.App.ConcentratedLiquidityKeeper.GetLockIdFromPositionId(lctx, id); err == nil {
+					// (matured: gone, or past its end time - matured locks are swept only every 120th block)
+					if l, lerr := leader.App.LockupKeeper.GetLockByID(lctx, lk); lerr != nil || (l.IsUnlocking() && !l.EndTime.After(lctx.BlockTime())) {
+						staleLinkAt = i + 1
+						c.Class("position-linked-to-a-matured-lock")
+						break
+					}
+				}
+			}
 		}
 		// state whose stored order depends on the history (not on ids): a reference list of active gauges that a finished
 		// gauge has left by swap-remove. An export taken after that point must reproduce the order, not just the set.
@@ -433,6 +447,10 @@ func runCase(rt *rapid.T, c *drv.Case) {
 		if reorderedAt > 0 && reorderedAt <= nb-1 && rapid.IntRange(0, 3).Draw(rt, "exportAfterReordering") > 0 {
 			p.ExportAt = rapid.IntRange(reorderedAt, nb-1).Draw(rt, "exportAtAfterReordering")
 			c.Class("export-after-gauge-list-reordering")
+		}
+		if staleLinkAt > 0 && staleLinkAt <= nb-1 && rapid.IntRange(0, 3).Draw(rt, "exportAfterLockMatured") > 0 {
+			p.ExportAt = rapid.IntRange(staleLinkAt, nb-1).Draw(rt, "exportAtAfterLockMatured")
+			c.Class("export-with-position-linked-to-a-matured-lock")
 		}
 	}
 	if rapid.IntRange(0, 3).Draw(rt, "doRestart") > 0 {
